@@ -8,7 +8,12 @@
                                                ids = SELECT id FROM other WHERE col = obj.id
                                                [otherClass.get(id) for id in ids]
 
-   The fixture uses column a (index 0) as the referencing column of every class. *)
+     Cls.<idx>.get(v)  index.py SODatabaseIndex.get (a unique DatabaseIndex):
+                                               Cls.selectBy(u=v).getOne(): ONE select (no ORDER BY), every row through
+                                               get(id, selectResults=row); 0 rows -> not-found, 2+ -> integrity error
+
+   The fixture uses column a (index 0) as the referencing column of every class
+   and declares the unique index on column u (index 1). *)
 From Coq Require Import List ZArith Bool.
 From Model Require Import Orm.
 Import ListNotations.
@@ -16,7 +21,8 @@ Open Scope Z_scope.
 
 Inductive path :=
 | PFk (h : nat) (k' : kind)                        (* slots[h].a followed to class k' -> new slot *)
-| PJoin (h : nat) (k' : kind) (keep : option nat). (* the k' rows whose a = slots[h].id; keep the n-th in a new slot *)
+| PJoin (h : nat) (k' : kind) (keep : option nat)  (* the k' rows whose a = slots[h].id; keep the n-th in a new slot *)
+| PIndex (k : kind) (u : Z).                       (* k.uIdx.get(u): the row of k whose u = u -> new slot *)
 
 Inductive pop :=
 | PBase (o : op)
@@ -50,6 +56,20 @@ Definition so_join (o : nat) (k' : kind) : M (list nat) :=
   ids <- gets (fun s => join_ids s k' (i_id i)) ;;
   get_each k' ids [].
 
+(* the unique-index lookup: selectBy(u = v).getOne() *)
+Definition index_rows (s : st) (k : kind) (u : Z) : list (Z * row) :=
+  filter (fun e => val_eqb (nth 1%nat (snd e) VNull) (VInt u)) (t_rows (tbl s k)).
+
+Definition so_index (k : kind) (u : Z) : M (option nat) :=
+  statement (SSelect k) ;;;
+  rows <- gets (fun s => index_rows s k u) ;;
+  objs <- select_rows cfg k rows [] ;;
+  match objs with
+  | [] => raise ENotFound
+  | [o] => ret (Some o)
+  | _ => raise EIntegrity          (* SQLObjectIntegrityError: more than one result *)
+  end.
+
 (* a slot-creating operation always creates its slot *)
 Definition hold_opt (m : M (option nat)) : M outv :=
   fun s => match m s with
@@ -62,6 +82,7 @@ Definition run_path (p : path) : M outv :=
   match p with
   | PFk h k' =>
       hold_opt (o <- handle h ;; so_fk o k')
+  | PIndex k u => hold_opt (so_index k u)
   | PJoin h k' keep =>
       or_empty_slot (match keep with Some _ => true | None => false end) (
       o <- handle h ;;
